@@ -16,6 +16,7 @@ argument in reach without compiling the crate)."""
 from __future__ import annotations
 
 import ast
+import re
 import collections
 import multiprocessing as mp
 import os
@@ -256,7 +257,7 @@ def feature_parity(ctx: Ctx, py: PyProgram, rs: RustProgram, rows: dict, ok_base
     hinit = _carry_lets(helper.body)
     if len(hinit) != 1:
         raise AnalysisError("execute_multi_byte_binary: `let mut carry = ..` not found")
-    h_carry_in = "get_reg(RegName::FC)" in expr_text(hinit[0]["init"]).replace(" ", "")
+    h_carry_in = any(x.get("k") == "mcall" and x["m"] == "get_reg" and x["args"] and expr_text(x["args"][0]).replace(" ", "") == "RegName::FC" for x in walk(hinit[0]["init"]))
     h_neg = any(x.get("k") == "unary" and x.get("op") == "-" for c in walk(helper.body) if c.get("k") == "call" and expr_text(c["f"]).endswith("advance_internal_addr_signed") for x in walk(c))
     for kind, cname, sub in (("Adc", "ADCL", False), ("Sbcl", "SBCL", True)):
         feats_rs[cname] = {"carry_in": h_carry_in, "reverse": h_neg, "bcd": False, "subtract": None}
@@ -282,7 +283,8 @@ def feature_parity(ctx: Ctx, py: PyProgram, rs: RustProgram, rows: dict, ok_base
         txt = expr_text(a["body"]).replace(" ", "")
         for kind, cname in (("Dadl", "DADL"), ("Dsbl", "DSBL")):
             if kind in str(a["pat"]):
-                feats_rs[cname] = {"carry_in": "get_reg(RegName::FC)" in txt, "reverse": d_neg, "bcd": True, "subtract": kind == "Dsbl"}
+                reads_fc = any(x.get("k") == "mcall" and x["m"] == "get_reg" and x["args"] and expr_text(x["args"][0]).replace(" ", "") == "RegName::FC" for x in walk(a["body"]))
+                feats_rs[cname] = {"carry_in": reads_fc, "reverse": d_neg, "bcd": True, "subtract": kind == "Dsbl"}
     for cname in ("ADCL", "SBCL", "DADL", "DSBL"):
         if cname not in feats_rs:
             raise AnalysisError(f"Rust features of {cname} not recovered")
